@@ -24,6 +24,14 @@ PLAN = {
         item("h_stream", "ans_msg", 1_600_000, 48_000_000, param=6, max_len=(1024, 16384)),
         item("h_stream", "range_msg", 1_600_000, 48_000_000, param=6, max_len=(1024, 16384)),
     ],
+    "C07": [
+        item("h_stream", "c07_range", 1_600_000, 48_000_000, max_len=(1024, 8192)),
+        item("h_stream", "c07_ans", 1_600_000, 48_000_000, max_len=(1024, 8192)),
+    ],
+    "C08": [
+        item("h_stream", "c08_ans", 1_600_000, 48_000_000, max_len=(1024, 8192)),
+        item("h_stream", "c08_range", 1_600_000, 48_000_000, max_len=(1024, 8192)),
+    ],
     "C11": [item("h_stream", "c11_suffix", 1_600_000, 64_000_000, max_len=(2048, 2048))],
     "C12": [
         item("h_stream", "ans_msg", 1_600_000, 32_000_000, param=12, max_len=(1024, 16384)),
@@ -52,6 +60,18 @@ RULES = {
            "sealed stream compared with the carry-propagating reference at a generated prefix and at the end; plus golden "
            "vectors from the project's documentation in the replay tier; " + GRID +
            "; non-trivial = >=1 flushed word (ANS) / >=1 renormalisation (range)",
+    "C07": "case = (config row, decoder kind, seek script of 1..12 steps {seek to a generated snapshot (preferring snapshots taken "
+           "while words were held back) then decode 0..23 symbols; seek to the final position; seek beyond the data}, message of "
+           "<=60 / <=600 symbols with a snapshot at every symbol boundary); range decoders over owned buffer, borrowed slice and the "
+           "encoder's temporary decoder; ANS decoders from as_seekable_decoder, into_seekable_decoder, reversed data with mirrored "
+           "positions, and the truncating Vec backend; " + GRID + "; non-trivial = script contains a seek to an inner snapshot followed "
+           "by at least one decode",
+    "C08": "case = twin histories: the same encodes (<=40 / <=400 symbols) applied to coder A with inspections inserted at generated "
+           "points and to an untouched twin B; ANS inspections: get_compressed (once/twice), get_binary (Ok and Err), iter_compressed, "
+           "as_decoder, as_seekable_decoder, clone, pos/state, sizes, starting from new/from_compressed/from_binary; range-encoder "
+           "inspections: get_compressed (once/twice), decoder() decoding 3 or all symbols, clone, pos/state, sizes; bit-level stack/queue "
+           "coders: see C16 interpreter; " + GRID + "; non-trivial = an inspection in a delicate state (range encoder inverted or with "
+           ">=2 seal words, ANS directly after a flush or with non-empty bulk, empty coder)",
     "C11": "case = up to 48 short messages per case (0..6 random symbols + a final symbol that is steered, with probability 3/4, "
            "from the encoder's public state() so that range lands just above 2^(S-W) and lower just above a word boundary), each "
            "followed by a suffix from {all-ones words, zeros, random words, a second sealed message written with with_backend(existing)}; "
@@ -67,6 +87,8 @@ LEVEL_TEXT = {
     "C02": "property-based round-trip search over range-coder messages (all carry situations reached thousands of times per run)",
     "C04": "property-based decode-then-re-encode search on arbitrary raw binary data through five constructors",
     "C06": "differential search against independent reference rANS and carry-propagating range coders, plus golden vectors from the documentation",
+    "C07": "stateful property-based search over seek scripts against the recorded message (snapshot k must resume at symbol k)",
+    "C08": "metamorphic property-based search: inspected coder vs untouched twin, and every view vs the export of a clone",
     "C11": "property-based search with a state-steered generator over sealed messages followed by adversarial suffixes",
     "C12": "property-based search checking the analytic size bound at every prefix of generated messages",
 }
@@ -76,6 +98,8 @@ TECHNIQUE = {
     "C02": "property-based round-trip testing over generated messages and decoder constructions",
     "C04": "property-based inverse round-trip (decode then re-encode) on generated raw data, differential across backends",
     "C06": "differential property-based testing against reference coders + golden-vector replay",
+    "C07": "stateful property-based testing (generated seek/decode scripts vs recorded message)",
+    "C08": "metamorphic property-based testing (inspected vs uninspected twin histories)",
     "C11": "property-based testing with state-feedback (steered) generation; oracle = decode(sealed ++ suffix) == message",
     "C12": "property-based testing of an analytic invariant over every prefix of generated messages",
 }
